@@ -8,9 +8,11 @@ open CuqiVerif CuqiVerif.Proto CuqiVerif.C09
   `hg NAMES FLAGS SIDS NSTEPS INIT CALLS DRAWS`
      NAMES  `d,l,x`              par_names order
      FLAGS  `000,011,110`        per name: isNuts hasCache cacheInState
-     SIDS   `0,1,2`              identity of the sampler object assigned to each name
+     SIDS   `0,1,2`              identity of the sampler object assigned to each name (`-` = no key;
+                                 one more entry = a key of the strategy that is not a parameter)
      NSTEPS `1,-,3`              num_sampling_steps (`-` = key absent)
-     INIT   `1;1;0,0,0`          initial point per name
+     UINIT  `-;1;-`              `initial_point` given by the user (`-` = None)
+     DINIT  `1;1;0,0,0`          the sampler's default initial point
      CALLS  `3,4`                sweeps per warmup/sample call
      DRAWS  `1|3/2;0|1,1;…`      transitions in call order: `acc|point` (`_` = none)
   `lg NAMES INITPTS DIMS CALLS DRAWS`
@@ -67,25 +69,34 @@ def hasDup : List String → Bool
   | [] => false
   | a :: l => l.contains a || hasDup l
 
-def runHG (names : List String) (flags : List (Bool × Bool × Bool)) (sids : List String)
-    (nsteps : List (Option Int)) (init : List Val) (calls : List Nat) (draws : List (Draw Val)) : String :=
-  let k := names.length
-  if flags.length != k || sids.length != k || nsteps.length != k || init.length != k then "bad-op"
-  else if names.isEmpty || hasDup names then "bad-op"
-  -- the same sampler object under two names: the second `sampler.initialize()` raises
-  else if hasDup sids then "err|ValueError"
-  else
-    let g0 : HG String Val := construct names (lookup names nsteps none) (lookup names init [])
-      (lookup names flags (false, false, false))
-    let need := calls.foldl (· + ·) 0 * (names.map g0.nsteps).foldl (· + ·) 0
-    if draws.length != need then s!"err|draws|{need}"
-    else
-      let ds : Nat → Draw Val := fun i => draws.getD i ⟨[], false⟩
-      let g := calls.foldl (fun g c => sampleN ds c g) g0
-      " ".intercalate (g.log.map fmtEv) ++ s!" # {g.pos} # " ++ " ".intercalate (g.stored.map fmtDict)
-
 def parseOptVec (s : String) : Option (Option Val) :=
   if s = "-" then some none else (fun v => some v) <$> parseVec s
+
+def parseSid (s : String) : Option (Option Nat) :=
+  if s = "-" then some none else (fun k => some k) <$> s.toNat?
+
+def runHG (names : List String) (flags : List (Bool × Bool × Bool)) (sids : List (Option Nat))
+    (nsteps : List (Option Int)) (uinit : List (Option Val)) (dinit : List Val) (calls : List Nat)
+    (draws : List (Draw Val)) : String :=
+  let k := names.length
+  if flags.length != k || (sids.length != k && sids.length != k + 1) || nsteps.length != k
+      || uinit.length != k || dinit.length != k then "bad-op"
+  else if names.isEmpty || hasDup names then "bad-op"
+  else
+    match validateStrategy names (lookup names (sids.take k) none) (sids.length == k + 1) with
+    | some .keyError => "err|KeyError"
+    | some .valueError => "err|ValueError"
+    | none =>
+      let init := initialPoints (lookup names uinit none) (lookup names dinit [])
+      let g0 : HG String Val := construct names (lookup names nsteps none) init
+        (lookup names flags (false, false, false))
+      let need := calls.foldl (· + ·) 0 * (names.map g0.nsteps).foldl (· + ·) 0
+      if draws.length != need then s!"err|draws|{need}"
+      else
+        let ds : Nat → Draw Val := fun i => draws.getD i ⟨[], false⟩
+        let g := calls.foldl (fun g c => sampleN ds c g) g0
+        " ".intercalate (g.log.map fmtEv) ++ s!" # {g.pos} # " ++ " ".intercalate (g.stored.map fmtDict)
+          ++ " # " ++ fmtDict (tuple names init)
 
 def parseCall (s : String) : Option (Nat × Nat) :=
   match s.splitOn ":" with
@@ -124,12 +135,13 @@ def runLG (names : List String) (ipts : List (Option Val)) (dims : List Nat) (ca
       " ".intercalate (g.log.map fmtLEv) ++ s!" # {g.pos} {tail} # " ++ fmtCols names g.samples ++ " # " ++ fmtCols names g.warm
 
 def step : List String → String
-  | ["hg", names, flags, sids, nsteps, init, calls, draws] =>
-    match parseList "," some names, parseList "," parseFlag flags, parseList "," some sids,
-          parseList "," parseOptInt nsteps, parseMat init, parseNatList calls, parseList ";" parseDraw draws with
-    | some names, some flags, some sids, some nsteps, some init, some calls, some draws =>
-      runHG names flags sids nsteps init calls draws
-    | _, _, _, _, _, _, _ => "bad-op"
+  | ["hg", names, flags, sids, nsteps, uinit, dinit, calls, draws] =>
+    match parseList "," some names, parseList "," parseFlag flags, parseList "," parseSid sids,
+          parseList "," parseOptInt nsteps, parseList ";" parseOptVec uinit, parseMat dinit,
+          parseNatList calls, parseList ";" parseDraw draws with
+    | some names, some flags, some sids, some nsteps, some uinit, some dinit, some calls, some draws =>
+      runHG names flags sids nsteps uinit dinit calls draws
+    | _, _, _, _, _, _, _, _ => "bad-op"
   | ["lg", names, ipts, dims, calls, draws] =>
     match parseList "," some names, parseList ";" parseOptVec ipts, parseNatList dims,
           parseList "," parseCall calls, parseList ";" parseVec draws with
